@@ -1,0 +1,48 @@
+//go:build verif
+
+package veriflaws
+
+import (
+	"github.com/csgura/fp"
+	"github.com/csgura/fp/internal/verifspec"
+)
+
+// Law predicates about fp.Eq instances (property C09).  EqLaws itself
+// (reflexive && symmetric && transitive) lives in laws.go; the three parts
+// are available separately here.
+//
+// NOTE: no exported name in this package may end in "Eq": the contract sugar
+// treats every call "…Eq(" as the structural equality verifspec.Eq.
+
+// EqRefl: Eqv is reflexive.
+func EqRefl[T any](e fp.Eq[T]) bool {
+	return verifspec.Forall(func(a T) bool { return e.Eqv(a, a) })
+}
+
+// EqSym: Eqv is symmetric.
+func EqSym[T any](e fp.Eq[T]) bool {
+	return verifspec.Forall(func(a, b T) bool { return e.Eqv(a, b) == e.Eqv(b, a) })
+}
+
+// EqTrans: Eqv is transitive.
+func EqTrans[T any](e fp.Eq[T]) bool {
+	return verifspec.Forall(func(a, b, c T) bool { return !(e.Eqv(a, b) && e.Eqv(b, c)) || e.Eqv(a, c) })
+}
+
+// EqIsIdentity: Eqv coincides with Go's == (the instances Given / String).
+func EqIsIdentity[T comparable](e fp.Eq[T]) bool {
+	return verifspec.Forall(func(a, b T) bool { return e.Eqv(a, b) == (a == b) })
+}
+
+// EqSame: two instances define the same relation.
+func EqSame[T any](e1, e2 fp.Eq[T]) bool {
+	return verifspec.Forall(func(a, b T) bool { return e1.Eqv(a, b) == e2.Eqv(a, b) })
+}
+
+// RelEquivalence: a plain binary predicate is an equivalence relation
+// (hypothesis of eq.New).
+func RelEquivalence[T any](f func(a, b T) bool) bool {
+	return verifspec.Forall(func(a T) bool { return f(a, a) }) &&
+		verifspec.Forall(func(a, b T) bool { return f(a, b) == f(b, a) }) &&
+		verifspec.Forall(func(a, b, c T) bool { return !(f(a, b) && f(b, c)) || f(a, c) })
+}
